@@ -7,6 +7,7 @@ import (
 	"strings"
 	"verif/internal/corpus"
 
+	"github.com/llir/llvm/asm"
 	"github.com/llir/llvm/ir"
 	"github.com/llir/llvm/ir/constant"
 	"github.com/llir/llvm/ir/types"
@@ -47,6 +48,7 @@ func genC06(ctx *fw.Ctx) []fw.Case {
 		s := s
 		cases = append(cases, fw.Case{ID: "corpus/" + s.ID, Run: func(r *fw.Rec) { c06Corpus(r, s) }})
 	}
+	cases = append(cases, fw.Case{ID: "api/address-space-edited-after-query", Run: c06AddrSpaceEdits})
 	return cases
 }
 
@@ -582,4 +584,91 @@ func c06HostInit(m *ir.Module, i int) constant.Constant {
 		}
 	}
 	return nil
+}
+
+// c06AddrSpaceEdits sets the address space of an alloca, a global and a
+// function (a plain field; the API offers no other way) before and after the
+// type was first asked for, on constructed and on parsed values: Type() and the
+// types of instructions built on the value must follow the field, as the
+// printed `addrspace(N)` does, and LLVM must accept the printed module.
+func c06AddrSpaceEdits(r *fw.Rec) {
+	type step struct {
+		name          string
+		queryFirst    bool
+		parsed        bool
+		useBeforeEdit bool
+	}
+	for _, st := range []step{{"constructed/set-before-first-query", false, false, false}, {"constructed/set-after-query", true, false, false},
+		{"constructed/set-after-a-store-checked-it", true, false, true}, {"parsed/edited", true, true, false}} {
+		r.Eval(1)
+		var text string
+		var bad []string
+		p, msg, _ := fw.Guard(func() {
+			var m *ir.Module
+			var al *ir.InstAlloca
+			var g *ir.Global
+			var f *ir.Func
+			var b *ir.Block
+			if st.parsed {
+				var err error
+				m, err = asm.ParseString("c06-as", "@g = addrspace(3) global i32 0\ndeclare void @callee() addrspace(3)\ndefine void @f() {\n  %a = alloca i32, addrspace(3)\n  ret void\n}\n")
+				if err != nil {
+					panic(err)
+				}
+				g, f = m.Globals[0], m.Funcs[0]
+				b = m.Funcs[1].Blocks[0]
+				al = b.Insts[0].(*ir.InstAlloca)
+				b.Term = nil
+			} else {
+				m = ir.NewModule()
+				g = m.NewGlobalDef("g", constant.NewInt(types.I32, 0))
+				f = m.NewFunc("callee", types.Void)
+				b = m.NewFunc("f", types.Void).NewBlock("")
+				al = b.NewAlloca(types.I32)
+			}
+			if st.queryFirst {
+				_, _, _ = al.Type(), g.Type(), f.Type()
+				_ = al.String()
+			}
+			if st.useBeforeEdit {
+				b.NewStore(constant.NewInt(types.I32, 1), al)
+				b.Insts = b.Insts[:len(b.Insts)-1]
+			}
+			al.AddrSpace, g.AddrSpace, f.AddrSpace = 5, 5, 5
+			want := func(what string, t types.Type, elem string) {
+				pt, ok := t.(*types.PointerType)
+				if !ok || pt.AddrSpace != 5 || pt.ElemType.String() != elem {
+					bad = append(bad, fmt.Sprintf("%s is %s", what, t))
+				}
+			}
+			want("alloca.Type()", al.Type(), "i32")
+			want("global.Type()", g.Type(), "i32")
+			want("func.Type()", f.Type(), "void ()")
+			gep := b.NewGetElementPtr(types.I32, al, constant.NewInt(types.I64, 0))
+			want("gep(alloca).Type()", gep.Type(), "i32")
+			sel := b.NewSelect(constant.True, al, al)
+			want("select(alloca, alloca).Type()", sel.Type(), "i32")
+			ld := b.NewLoad(types.I32, g)
+			b.NewStore(ld, al)
+			call := b.NewCall(f)
+			call.AddrSpace = 5
+			b.NewRet(nil)
+			text = m.String()
+		})
+		key := "api-addrspace/" + st.name
+		if p {
+			r.Violate(fw.Violation{Key: key + "/panic", What: "setting an address space and building on the value panics: " + firstLine(msg)})
+			continue
+		}
+		if len(bad) > 0 {
+			r.Violate(fw.Violation{Key: key, Input: text, What: "after AddrSpace = 5 (" + st.name + "): " + strings.Join(bad, "; ")})
+			continue
+		}
+		if ok, lmsg, err := llvmref.Accepts(text); err == nil && !ok {
+			r.Violate(fw.Violation{Key: key + "/llvm", Input: text, What: "LLVM rejects the printed module: " + firstLine(lastDiag(lmsg))})
+			continue
+		}
+		r.Nontrivial(key)
+		r.Tally("api", "address-space-edit:"+st.name)
+	}
 }
